@@ -836,3 +836,369 @@ Proof.
 Qed.
 
 End Invariant.
+
+(* ======================================================================================== *)
+(* Part 2b: the property theorems on runs                                                    *)
+(* ======================================================================================== *)
+
+(* the looked-up names are names of the property's quantifier *)
+Definition names_ok (tr : list event) : Prop := forall c h n, In (EvL c h n) tr -> name_ok n = true.
+
+Lemma inv_run_names cfg tr st : records_ok cfg = true -> run cfg tr st -> names_ok tr ->
+  inv cfg name_ok tr st.
+Proof. intros R H N. apply inv_run; auto. Qed.
+
+(* ---- C20_answer ---- *)
+Lemma answer_thm cfg tr st : records_ok cfg = true -> run cfg tr st -> names_ok tr ->
+  forall c h n a, In (EvR c h n a) tr -> tbl_get (server_table cfg) n = Some a.
+Proof.
+  intros R H N c h n a I. destruct (inv_run_names cfg tr st R H N) as (_ & _ & T1 & _).
+  apply (T1 _ _ _ _ I).
+Qed.
+
+Lemma answer_registered cfg tr st : records_ok cfg = true -> run cfg tr st -> names_ok tr ->
+  forall c h n a a', In (EvR c h n a) tr -> tbl_get (reg_table cfg) n = Some a' ->
+  cfg_builtin_wins cfg = false \/ (n <> builtin1_name /\ n <> builtin2_name) -> a = a'.
+Proof.
+  intros R H N c h n a a' I G D. pose proof (answer_thm cfg tr st R H N c h n a I) as E.
+  rewrite (server_table_registered cfg n a' G D) in E. inversion E. reflexivity.
+Qed.
+
+(* a name whose query does not fit the server's read is never resolved *)
+Lemma returned_fits cfg tr st : records_ok cfg = true -> run cfg tr st -> names_ok tr ->
+  forall c h n a, In (EvR c h n a) tr -> fits cfg n = true.
+Proof.
+  intros R H N c h n a I. destruct (inv_run_names cfg tr st R H N) as (_ & C & T1 & _).
+  destruct (T1 _ _ _ _ I) as [_ Hc]. destruct (C c) as (Cc & _).
+  destruct (tbl_get (c_cache (getc st c)) n) as [b|] eqn:E; [|congruence].
+  apply (Cc _ _ E).
+Qed.
+
+(* the code as it is: recv(80), built-in records win *)
+Definition as_is (records : list (name * addr)) (conn : Z) : config := mkConfig records (Some 80) true conn.
+(* the repaired code *)
+Definition repaired (records : list (name * addr)) (conn : Z) : config := mkConfig records None false conn.
+
+Definition name25 : name := repeat 97 25.
+
+(* refutation 1: a 25-byte name is registered; the first query for it kills the process *)
+Lemma long_name_crashes :
+  let cfg := as_is [(name25, [10; 0; 0; 1])] 4 in
+  records_ok cfg = true /\ name_ok name25 = true /\
+  tbl_get (reg_table cfg) name25 = Some [10; 0; 0; 1] /\
+  exists st, run cfg [EvL 0 0 name25; EvQ 0 49152 7 name25; EvX 61] st /\ s_dead st = Some 61.
+Proof.
+  cbv zeta. split; [reflexivity|]. split; [reflexivity|]. split; [reflexivity|].
+  eexists. split; [vm_compute; reflexivity|reflexivity].
+Qed.
+Lemma long_name_never_resolved cfg tr st n : records_ok cfg = true -> run cfg tr st -> names_ok tr ->
+  cfg_recv_cap cfg = Some 80 -> (25 <= length n)%nat -> forall c h a, ~ In (EvR c h n a) tr.
+Proof.
+  intros R H N Cap L c h a I. pose proof (returned_fits cfg tr st R H N c h n a I) as F.
+  unfold fits in F. rewrite Cap in F. lia.
+Qed.
+(* the threshold is exact: 24 bytes fit *)
+Lemma fits_as_is records conn n : fits (as_is records conn) n = true <-> (length n <= 24)%nat.
+Proof. unfold fits, as_is. cbn [cfg_recv_cap]. split; intros H; lia. Qed.
+Lemma fits_repaired records conn n : fits (repaired records conn) n = true.
+Proof. reflexivity. Qed.
+
+(* refutation 2: a registered record for "google.com" is answered with the built-in address *)
+Lemma builtin_overrides_registered :
+  let cfg := as_is [(builtin2_name, [1; 2; 3; 4])] 1 in
+  records_ok cfg = true /\ name_ok builtin2_name = true /\
+  tbl_get (reg_table cfg) builtin2_name = Some [1; 2; 3; 4] /\
+  exists st, run cfg [EvL 0 0 builtin2_name; EvQ 0 49152 7 builtin2_name;
+                      EvA 0 49152 (response_bytes 7 builtin2_name builtin2_addr);
+                      EvR 0 0 builtin2_name builtin2_addr] st /\
+             s_dead st = None /\ builtin2_addr <> [1; 2; 3; 4].
+Proof.
+  cbv zeta. split; [reflexivity|]. split; [reflexivity|]. split; [reflexivity|].
+  eexists. split; [vm_compute; reflexivity|]. split; [reflexivity|discriminate].
+Qed.
+
+(* the hypotheses of the positive theorems are satisfiable, with a return in the trace *)
+Lemma answer_example :
+  let cfg := as_is [([97; 46; 98], [10; 0; 0; 1])] 1 in
+  let tr := [EvL 0 0 [97; 46; 98]; EvQ 0 49152 7 [97; 46; 98];
+             EvA 0 49152 (response_bytes 7 [97; 46; 98] [10; 0; 0; 1]);
+             EvR 0 0 [97; 46; 98] [10; 0; 0; 1]; EvL 0 1 [97; 46; 98]; EvR 0 1 [97; 46; 98] [10; 0; 0; 1]] in
+  records_ok cfg = true /\ names_ok tr /\ exists st, run cfg tr st.
+Proof.
+  cbv zeta. split; [reflexivity|]. split.
+  - intros c h n I. cbn [In] in I.
+    repeat match goal with H : _ \/ _ |- _ => destruct H as [H|H] end;
+      try discriminate; try contradiction; inversion I; reflexivity.
+  - eexists. vm_compute. reflexivity.
+Qed.
+
+(* ---- prefixes of runs ---- *)
+Lemma run_split cfg t1 e t2 st : run cfg (t1 ++ e :: t2) st ->
+  exists s1 s2, run cfg t1 s1 /\ step cfg s1 e = Some s2 /\ replay cfg s2 t2 = Some st.
+Proof.
+  unfold run. rewrite replay_app. destruct (replay cfg init_state t1) as [s1|]; [|discriminate].
+  cbn [replay]. destruct (step cfg s1 e) as [s2|] eqn:E; [|discriminate].
+  intros H. exists s1, s2. auto.
+Qed.
+Lemma names_ok_prefix t1 t2 : names_ok (t1 ++ t2) -> names_ok t1.
+Proof. intros N c h n I. apply (N c h n). apply in_or_app. left. exact I. Qed.
+
+(* ---- C20_echo ---- *)
+(* every reply on the network answers a query sent earlier from the socket it is addressed to, and
+   carries that query's identifier and name and the server's address for the name *)
+Lemma echo_reply cfg t1 c p bytes t2 st : records_ok cfg = true ->
+  run cfg (t1 ++ EvA c p bytes :: t2) st -> names_ok (t1 ++ EvA c p bytes :: t2) ->
+  exists id n a m, In (EvQ c p id n) t1 /\ dns_from_bytes bytes = Ok (m, []) /\
+    d_id (m_header m) = id /\ d_properties (m_header m) = 32768 /\ q_qname (m_question m) = n /\
+    r_name (m_answer m) = n /\ r_rdata (m_answer m) = a /\ tbl_get (server_table cfg) n = Some a.
+Proof.
+  intros R H N. destruct (run_split _ _ _ _ _ H) as (s1 & s2 & H1 & S & _).
+  destruct (inv_run_names cfg t1 s1 R H1 (names_ok_prefix _ _ N)) as (_ & C & _ & _ & _ & T4).
+  unfold step in S. destruct (s_dead s1); [discriminate|].
+  destruct (find_sock p (c_socks (getc s1 c))) as [k|] eqn:Fs; [|discriminate].
+  destruct (k_status k); try discriminate.
+  destruct (s_accepted s1 <? conn_limit cfg); [|discriminate].
+  destruct (server_respond cfg (request_bytes (k_id k) (k_name k))) as [resp| | |] eqn:Sr; try discriminate.
+  destruct (list_eqb resp bytes) eqn:Eb; [|discriminate]. apply list_eqb_eq in Eb. subst resp.
+  destruct (find_sock_in _ _ _ Fs) as [Ik Pk]. destruct (C c) as (_ & _ & _ & Cs).
+  rewrite Forall_forall in Cs. destruct (Cs _ Ik) as (Gk & Idk & _).
+  destruct (server_respond_inv cfg _ _ _ Gk Idk Sr) as (_ & a & Ta & Er).
+  destruct (response_echo (k_id k) (k_name k) a Gk Idk (server_table_ok cfg R _ _ Ta))
+    as (m & D & E1 & E2 & E3 & E4 & E5).
+  exists (k_id k), (k_name k), a, m. subst bytes. rewrite <- Pk.
+  split; [apply (T4 _ _ Ik)|]. repeat split; assumption.
+Qed.
+
+(* the address a lookup returns comes from the cache filled by an earlier return of the same
+   name to the same client, or from a reply that was sent to a socket of this client in answer
+   to a query for this name, and echoes that query's identifier and name *)
+Lemma echo_accept cfg t1 c h n a t2 st : records_ok cfg = true ->
+  run cfg (t1 ++ EvR c h n a :: t2) st -> names_ok (t1 ++ EvR c h n a :: t2) ->
+  (exists h', In (EvR c h' n a) t1) \/
+  (exists p id bytes m, In (EvQ c p id n) t1 /\ In (EvA c p bytes) t1 /\
+     dns_from_bytes bytes = Ok (m, []) /\ d_id (m_header m) = id /\
+     d_properties (m_header m) = 32768 /\ q_qname (m_question m) = n /\
+     r_name (m_answer m) = n /\ r_rdata (m_answer m) = a).
+Proof.
+  intros R H N. destruct (run_split _ _ _ _ _ H) as (s1 & s2 & H1 & S & _).
+  destruct (inv_run_names cfg t1 s1 R H1 (names_ok_prefix _ _ N)) as (_ & C & T1 & T2 & _ & T4).
+  unfold step in S. destruct (s_dead s1); [discriminate|].
+  destruct (C c) as (Cc & Cl & _ & Cs).
+  destruct (find_look h (c_looks (getc s1 c))) as [l|] eqn:Fl; [|discriminate].
+  destruct (list_eqb (l_name l) n) eqn:En; [|discriminate]. apply list_eqb_eq in En.
+  destruct (find_look_in _ _ _ Fl) as [Il _]. rewrite Forall_forall in Cl.
+  destruct (Cl _ Il) as [_ Lk]. destruct (l_kind l) as [a'|].
+  - destruct (list_eqb a' a) eqn:Ea; [|discriminate]. apply list_eqb_eq in Ea. subst a'.
+    destruct Lk as [Sa Ca]. rewrite En in *. destruct (T2 _ _ Ca) as (h0 & a0 & I0).
+    left. exists h0. destruct (T1 _ _ _ _ I0) as [Sa0 _]. rewrite Sa in Sa0. inversion Sa0; subst a0. exact I0.
+  - destruct (take_reply (c_cache (getc s1 c)) n a (c_socks (getc s1 c))) as [[p cache']|] eqn:Tr; [|discriminate].
+    destruct (take_reply_spec _ _ _ _ _ _ Tr) as (k & bytes & Ik & Pk & Nk & Sk & Ak).
+    rewrite Forall_forall in Cs. destruct (Cs _ Ik) as (Gk & Idk & Rk).
+    rewrite Sk in Rk. destruct Rk as (a0 & Ta0 & Eb & _). rewrite Nk in *. subst bytes.
+    pose proof (server_table_ok cfg R _ _ Ta0) as Oa.
+    rewrite (client_accept_response _ _ _ _ Gk Idk Oa) in Ak. inversion Ak; subst cache' a0.
+    destruct (response_echo (k_id k) n a Gk Idk Oa) as (m & D & E1 & E2 & E3 & E4 & E5).
+    destruct (T4 _ _ Ik) as [Iq Ia]. rewrite Nk, Pk in Iq. specialize (Ia _ Sk). rewrite Pk in Ia.
+    right. exists p, (k_id k), (response_bytes (k_id k) n a), m. repeat split; assumption.
+Qed.
+
+(* ---- C20_cache_silent ---- *)
+Lemma owed_count_nonneg n l : 0 <= owed_count n l.
+Proof. unfold owed_count. lia. Qed.
+
+(* a client never sends more queries for a name than it started lookups of that name before the
+   name was first returned to it: lookups that start afterwards put nothing on the network *)
+Lemma cache_silent_count cfg tr st : records_ok cfg = true -> run cfg tr st -> names_ok tr ->
+  forall c n, count_Q c n tr <= early_lookups c n tr.
+Proof.
+  intros R H N c n. destruct (inv_run_names cfg tr st R H N) as (_ & _ & _ & _ & T3 & _).
+  pose proof (T3 c n). pose proof (owed_count_nonneg n (c_owed (getc st c))). lia.
+Qed.
+
+(* after a return of n to client c, a further lookup of n by c is a cache hit: it changes no
+   socket, no owed query, no cache and not the server; the only thing it can do next is return
+   the same address, and it can *)
+Lemma cache_silent_hit cfg t1 s1 c h0 n a h : records_ok cfg = true -> run cfg t1 s1 -> names_ok t1 ->
+  In (EvR c h0 n a) t1 -> s_dead s1 = None ->
+  exists s2, step cfg s1 (EvL c h n) = Some s2 /\
+    (forall c', c_owed (getc s2 c') = c_owed (getc s1 c') /\ c_socks (getc s2 c') = c_socks (getc s1 c') /\
+                c_cache (getc s2 c') = c_cache (getc s1 c')) /\
+    s_accepted s2 = s_accepted s1 /\
+    (forall a', step cfg s2 (EvR c h n a') <> None -> a' = a) /\
+    step cfg s2 (EvR c h n a) <> None.
+Proof.
+  intros R H N I D. destruct (inv_run_names cfg t1 s1 R H N) as (_ & C & T1 & _).
+  destruct (T1 _ _ _ _ I) as [Sa Ca]. destruct (C c) as (Cc & _).
+  destruct (tbl_get (c_cache (getc s1 c)) n) as [b|] eqn:E; [|congruence].
+  destruct (Cc _ _ E) as [Sb _]. rewrite Sa in Sb. inversion Sb; subst b.
+  unfold step at 1. rewrite D, E. eexists. split; [reflexivity|]. set (v := mkC _ _ _ _).
+  split; [|split; [reflexivity|]].
+  - intros c'. rewrite getc_setc. destruct (c =? c') eqn:Ec; [|repeat split; reflexivity].
+    assert (c = c') by lia. subst c'. repeat split; reflexivity.
+  - assert (St : forall a', step cfg (setc s1 c v) (EvR c h n a') =
+                 if list_eqb a a' then Some (setc (setc s1 c v) c
+                      (mkC (c_cache v) (remove_look h (c_looks v)) (c_owed v) (c_socks v))) else None).
+    { intros a'. unfold step. cbn [setc s_dead]. rewrite D. rewrite getc_setc_same.
+      unfold v at 1. cbn [c_looks find_look l_h]. rewrite Z.eqb_refl. cbn [l_name l_kind].
+      rewrite list_eqb_refl. reflexivity. }
+    split.
+    + intros a' Hs. rewrite St in Hs. destruct (list_eqb a a') eqn:Ea; [|congruence].
+      apply list_eqb_eq in Ea. symmetry. exact Ea.
+    + rewrite St, list_eqb_refl. discriminate.
+Qed.
+
+(* ---- no crash ---- *)
+Definition good3 (cfg : config) (n : name) : bool :=
+  name_ok n && fits cfg n && match tbl_get (server_table cfg) n with Some _ => true | None => false end.
+Lemma good3_name_ok cfg n : good3 cfg n = true -> name_ok n = true.
+Proof. unfold good3. intros H. apply andb_prop in H as [H _]. apply andb_prop in H as [H _]. exact H. Qed.
+
+Lemma existsb_false {A} (f : A -> bool) l : (forall x, In x l -> f x = false) -> existsb f l = false.
+Proof.
+  intros H. destruct (existsb f l) eqn:E; [|reflexivity].
+  apply existsb_exists in E as [x [I F]]. rewrite (H x I) in F. discriminate.
+Qed.
+
+Lemma no_panic_step cfg tr st site : records_ok cfg = true -> inv cfg (good3 cfg) tr st ->
+  step cfg st (EvX site) = None.
+Proof.
+  intros R (U & C & _). unfold step. destruct (s_dead st); [reflexivity|].
+  assert (Cx : forall x, In x (s_clients st) -> client_ok cfg (good3 cfg) (snd x)).
+  { intros [c cs] I. cbn [snd]. rewrite <- (getc_list_in _ _ _ U I). apply C. }
+  assert (S : existsb (fun x => server_panics cfg site (snd x)) (s_clients st) = false).
+  { apply existsb_false. intros x Ix. destruct (Cx x Ix) as (_ & _ & _ & Cs).
+    unfold server_panics. apply existsb_false. intros k Ik. rewrite Forall_forall in Cs.
+    destruct (Cs k Ik) as (Gk & Idk & _). destruct (k_status k); try reflexivity.
+    unfold good3 in Gk. apply andb_prop in Gk as [Gk Tk]. apply andb_prop in Gk as [Nk Fk].
+    rewrite (server_respond_fits cfg _ _ Nk Idk Fk).
+    destruct (tbl_get (server_table cfg) (k_name k)); [reflexivity|discriminate]. }
+  assert (K : existsb (fun x => client_panics site (snd x)) (s_clients st) = false).
+  { apply existsb_false. intros x Ix. destruct (Cx x Ix) as (_ & _ & _ & Cs).
+    unfold client_panics. apply existsb_false. intros k Ik. rewrite Forall_forall in Cs.
+    destruct (Cs k Ik) as (Gk & Idk & Rk). destruct (k_status k) as [|bytes|]; try reflexivity.
+    destruct Rk as (a & Ta & Eb & _). apply existsb_false. intros l _.
+    destruct (l_kind l); [reflexivity|]. destruct (list_eqb (l_name l) (k_name k)) eqn:E; [|reflexivity].
+    apply list_eqb_eq in E. rewrite E. subst bytes.
+    rewrite (client_accept_response _ _ _ _ (good3_name_ok _ _ Gk) Idk (server_table_ok cfg R _ _ Ta)).
+    reflexivity. }
+  rewrite S, K, andb_false_r. reflexivity.
+Qed.
+
+Lemma step_dead cfg st e st' : step cfg st e = Some st' ->
+  (forall site, e <> EvX site) -> s_dead st' = s_dead st.
+Proof.
+  intros H NX. unfold step in H. destruct (s_dead st) eqn:D; [discriminate|].
+  assert (F : forall c v, s_dead (setc st c v) = None) by (intros c v; cbn [setc s_dead]; exact D).
+  destruct e as [c h n|c p id n|c p bytes|c h n a|site].
+  - destruct (tbl_get _ n); inversion H; apply F.
+  - destruct (remove_first _ _); [|discriminate]. destruct (find_sock _ _); [discriminate|].
+    destruct (_ && _); inversion H; apply F.
+  - destruct (find_sock _ _) as [k|]; [|discriminate]. destruct (k_status k); try discriminate.
+    destruct (_ <? _); [|discriminate]. destruct (server_respond _ _); try discriminate.
+    destruct (list_eqb _ _); inversion H; reflexivity.
+  - destruct (find_look _ _) as [l|]; [|discriminate]. destruct (list_eqb _ _); [|discriminate].
+    destruct (l_kind l).
+    + destruct (list_eqb _ _); inversion H; apply F.
+    + destruct (take_reply _ _ _ _) as [[p c']|]; inversion H; apply F.
+  - exfalso. apply (NX site). reflexivity.
+Qed.
+
+(* if every looked-up name is in the quantifier, has a record and fits the server's read, no task
+   panics: the run never dies *)
+Lemma no_crash cfg tr : records_ok cfg = true ->
+  forall st, run cfg tr st -> (forall c h n, In (EvL c h n) tr -> good3 cfg n = true) ->
+  s_dead st = None /\ forall site, ~ In (EvX site) tr.
+Proof.
+  intros R. unfold run. induction tr as [|e tr IH] using rev_ind; intros st H G.
+  - cbn [replay] in H. inversion H; subst. split; [reflexivity|]. intros site [].
+  - rewrite replay_snoc in H. destruct (replay cfg init_state tr) as [s|] eqn:Rs; [|discriminate].
+    assert (G' : forall c h n, In (EvL c h n) tr -> good3 cfg n = true).
+    { intros c h n I. apply (G c h n). apply in_snoc. exact I. }
+    destruct (IH s eq_refl G') as [D NX].
+    pose proof (inv_run cfg (good3 cfg) (good3_name_ok cfg) R tr s Rs G') as I.
+    destruct e as [c h n|c p id n|c p bytes|c h n a|site];
+      try (split; [rewrite (step_dead _ _ _ _ H) by (intros s0; discriminate); exact D
+                  |intros s0 Is; apply in_snoc_inv in Is as [Is|Is]; [apply (NX s0 Is)|discriminate]]).
+    rewrite (no_panic_step cfg tr s site R I) in H. discriminate.
+Qed.
+
+(* ======================================================================================== *)
+(* Part 3: trace validation                                                                  *)
+(* ======================================================================================== *)
+
+Definition names_okb (tr : list event) : bool :=
+  forallb (fun e => match e with EvL _ _ n => name_ok n | _ => true end) tr.
+Lemma names_okb_spec tr : names_okb tr = true -> names_ok tr.
+Proof.
+  unfold names_okb, names_ok. intros H c h n I. rewrite forallb_forall in H. apply (H _ I).
+Qed.
+
+(* an accepted trace is a trace of the transition system, and its ending is the model's *)
+Lemma validate_run cfg tr en finals : validate cfg tr en finals = true ->
+  exists st, run cfg tr st /\
+    match en with
+    | EndDone => s_dead st = None /\ all_returned st = true /\ finals_ok st finals = true
+    | EndCrash => exists site, s_dead st = Some site
+    | EndHang => s_dead st = None /\ all_returned st = false /\ starved cfg st = true
+    end.
+Proof.
+  unfold validate, run. destruct (replay cfg init_state tr) as [st|]; [|discriminate].
+  intros H. exists st. split; [reflexivity|]. destruct en; destruct (s_dead st) as [site|]; try discriminate.
+  - apply andb_prop in H as [H1 H2]. auto.
+  - exists site. reflexivity.
+  - apply andb_prop in H as [H1 H2]. split; [reflexivity|]. split; [|exact H2].
+    destruct (all_returned st); [discriminate|reflexivity].
+Qed.
+
+Lemma opt_addr_eqb_eq a b : opt_addr_eqb a b = true -> a = b.
+Proof.
+  destruct a, b; cbn [opt_addr_eqb]; intros H; try discriminate; [|reflexivity].
+  apply list_eqb_eq in H. congruence.
+Qed.
+
+(* soundness: what acceptance of the implementation's trace establishes about that trace *)
+Lemma validate_sound cfg tr en finals : records_ok cfg = true -> names_okb tr = true ->
+  validate cfg tr en finals = true ->
+  (* every returned address is the server's address for the name *)
+  (forall c h n a, In (EvR c h n a) tr -> tbl_get (server_table cfg) n = Some a) /\
+  (* every reply answers an earlier query from the socket it is addressed to and echoes it *)
+  (forall t1 c p bytes t2, tr = t1 ++ EvA c p bytes :: t2 ->
+     exists id n a m, In (EvQ c p id n) t1 /\ dns_from_bytes bytes = Ok (m, []) /\
+       d_id (m_header m) = id /\ d_properties (m_header m) = 32768 /\ q_qname (m_question m) = n /\
+       r_name (m_answer m) = n /\ r_rdata (m_answer m) = a /\ tbl_get (server_table cfg) n = Some a) /\
+  (* every returned address comes from the cache filled by an earlier return or from an echoing reply *)
+  (forall t1 c h n a t2, tr = t1 ++ EvR c h n a :: t2 ->
+     (exists h', In (EvR c h' n a) t1) \/
+     (exists p id bytes m, In (EvQ c p id n) t1 /\ In (EvA c p bytes) t1 /\
+        dns_from_bytes bytes = Ok (m, []) /\ d_id (m_header m) = id /\
+        d_properties (m_header m) = 32768 /\ q_qname (m_question m) = n /\
+        r_name (m_answer m) = n /\ r_rdata (m_answer m) = a)) /\
+  (* queries are covered by the lookups that start before the first return *)
+  (forall c n, count_Q c n tr <= early_lookups c n tr) /\
+  (* after a clean end the caches hold the server's addresses *)
+  (en = EndDone -> forall c n a, In (c, n, Some a) finals -> tbl_get (server_table cfg) n = Some a).
+Proof.
+  intros R Nb V. pose proof (names_okb_spec tr Nb) as N.
+  destruct (validate_run cfg tr en finals V) as (st & H & E).
+  split; [apply (answer_thm cfg tr st R H N)|].
+  split; [intros t1 c p bytes t2 Et; subst tr; apply (echo_reply cfg t1 c p bytes t2 st R H N)|].
+  split; [intros t1 c h n a t2 Et; subst tr; apply (echo_accept cfg t1 c h n a t2 st R H N)|].
+  split; [apply (cache_silent_count cfg tr st R H N)|].
+  intros Ed c n a I. subst en. destruct E as (_ & _ & F).
+  unfold finals_ok in F. rewrite forallb_forall in F. specialize (F _ I). cbn beta iota in F.
+  apply opt_addr_eqb_eq in F.
+  destruct (inv_run_names cfg tr st R H N) as (_ & C & _). destruct (C c) as (Cc & _).
+  apply (Cc _ _ F).
+Qed.
+
+(* the validator accepts the example trace of answer_example (it is not vacuous) *)
+Lemma validate_example :
+  let cfg := as_is [([97; 46; 98], [10; 0; 0; 1])] 1 in
+  let tr := [EvL 0 0 [97; 46; 98]; EvQ 0 49152 7 [97; 46; 98];
+             EvA 0 49152 (response_bytes 7 [97; 46; 98] [10; 0; 0; 1]);
+             EvR 0 0 [97; 46; 98] [10; 0; 0; 1]; EvL 0 1 [97; 46; 98]; EvR 0 1 [97; 46; 98] [10; 0; 0; 1]] in
+  validate cfg tr EndDone [(0, [97; 46; 98], Some [10; 0; 0; 1]); (1, [97; 46; 98], None)] = true /\
+  names_okb tr = true /\
+  (* a second query for the cached name is rejected *)
+  validate cfg (tr ++ [EvL 0 2 [97; 46; 98]; EvQ 0 49153 8 [97; 46; 98]]) EndHang [] = false.
+Proof. cbv zeta. split; [vm_compute; reflexivity|]. split; vm_compute; reflexivity. Qed.
